@@ -427,6 +427,15 @@ class PatternEngine(EncEngine):
 
     def gen(self, rng, tier):
         ms, ev = rand_event(rng, msg=(False if rng.chance(1, 12) else rand_str(rng, 40)))
+        if rng.chance(1, 4):
+            # padding widths placed around the content's size in characters AND in bytes (they differ
+            # for non-ASCII text): at, just below/above, and between the two
+            content = "".join(rng.pick(["é", "ñ", "€", "\U0001F600", "a", "b", "Ж"]) for _ in range(1 + rng.below(8)))
+            ms, ev = rand_event(rng, msg=content)
+            n, b = len(content), len(content.encode("utf-8"))
+            w = max(1, rng.pick([n - 1, n, n + 1, (n + b) // 2, b - 1, b, b + 1, b + 3]))
+            pat = rng.pick(["", "[", "x "]) + "%" + rng.pick(["", "-"]) + str(w) + "m" + rng.pick(["", "]", " %p"])
+            return self.case(pat, ms, ev, rand_fields(rng, 2))
         return self.case(self.gen_pattern(rng), ms, ev, rand_fields(rng, 4))
 
     def shape(self, line):
